@@ -431,7 +431,8 @@ Inductive action :=
 | AOpenRes (tid : nat) (ok : bool)    (* the transport's OpenStream returns *)
 | AAddrs (l : list addr)              (* the peerstore's addresses of the peer change *)
 | ADialRes (a : addr) (ok lim : bool) (* a transport dial returns *)
-| ADeliver.                           (* the worker, back from addConn, answers the requests *)
+| ADeliver                            (* the worker, back from addConn, answers the requests *)
+| AStartConn (allow force nodial : bool).  (* BasicHost.Connect(ctx, {ID: p}) *)
 
 Definition new_conn (lim proxy : bool) : conn := mkConn lim proxy false true 0.
 
@@ -516,6 +517,15 @@ Definition step_raw (s : state) (a : action) : option state :=
                          (nextr s) (diallog s))
       | None => None
       end
+  | AStartConn allow force nodial =>
+      (* BasicHost.Connect: unless force-direct, an existing connection satisfies the call
+         (Connected, or Limited with allow-limited); otherwise it is DialPeer.  A Connect call is
+         a dial call with t_onconn set (the flag has no other meaning for dial calls). *)
+      let cn := connectedness (conns s) in
+      let short := negb force && (Nat.eqb cn 1 || (allow && Nat.eqb cn 2)) in
+      let p := if short then match best_conn (conns s) with Some c => PDone (ROk c) | None => PDialStart end
+               else PDialStart in
+      Some (set_threads s (threads s ++ [mkThread true allow force nodial true false 0 p]))
   end.
 
 Definition step (s : state) (a : action) : option state := option_map cleanup (step_raw s a).
